@@ -179,6 +179,19 @@ do {									\
 	}								\
 } while (0)
 
+/* The CRI search stores one point for each CRI bit clocked in, which
+   can be many more than cri_bits when the CRI is found late or not at
+   all. The caller provides room for cri_bits CRI points only, so we
+   keep the most recent ones: those which matched if the CRI is found. */
+#define DROP_OLDEST_CRI_POINT()						\
+do {									\
+	if ((unsigned int)(points - points_start) >= max_cri_points) {	\
+		memmove (points_start, points_start + 1,		\
+			 (max_cri_points - 1) * sizeof (*points));	\
+		--points;						\
+	}								\
+} while (0)
+
 #define CRI()								\
 do {									\
 	unsigned int tavg;						\
@@ -193,7 +206,8 @@ do {									\
 		cl += bs->cri_rate;					\
 									\
 		if (cl >= bs->oversampling_rate) {			\
-			if (collect_points) {				\
+			if (collect_points && max_cri_points > 0) {	\
+				DROP_OLDEST_CRI_POINT ();		\
 				points->kind = VBI3_CRI_BIT;		\
 				points->index = (raw - raw_start) << 8;	\
 				points->level = tavg << 8;		\
@@ -275,7 +289,8 @@ bit_slicer_ ## fmt		(vbi3_bit_slicer *	bs,		\
 	unsigned int bpp =						\
 		vbi_pixfmt_bytes_per_pixel (VBI_PIXFMT_ ## fmt);	\
 	static const unsigned int oversampling = os;			\
-	static const vbi3_bit_slicer_point *points_start = NULL;	\
+	vbi3_bit_slicer_point *points_start = points;			\
+	static const unsigned int max_cri_points = 0;			\
 	static const vbi_bool collect_points = FALSE;			\
 	unsigned int thresh_frac = tf;					\
 									\
@@ -293,6 +308,14 @@ BIT_SLICER (RGB16_BE, 4, bs->thresh_frac)
 #if 3 == VBI_VERSION_MINOR
 BIT_SLICER (RGB8, 8, bs->thresh_frac)
 #endif
+
+/* bs->payload counts octets when the octet routines are used
+   (bs->endian 0 or 1), bits otherwise. */
+_vbi_inline unsigned int
+payload_bits			(const vbi3_bit_slicer *bs)
+{
+	return (bs->endian < 2) ? bs->payload * 8 : bs->payload;
+}
 
 static const unsigned int	LP_AVG = 4;
 
@@ -314,8 +337,11 @@ low_pass_bit_slicer_Y8		(vbi3_bit_slicer *	bs,
 	unsigned char b1;	/* previous bit */
 	unsigned int bps;
 	unsigned int raw0sum;
+	unsigned int max_cri_points;
 
 	points_start = points;
+
+	max_cri_points = bs->total_bits - bs->frc_bits - payload_bits (bs);
 
 	raw_start = raw;
 	raw += bs->skip;
@@ -355,7 +381,9 @@ low_pass_bit_slicer_Y8		(vbi3_bit_slicer *	bs,
 			cl += bs->cri_rate;
 
 			if (cl >= bs->oversampling_rate) {
-				if (unlikely (NULL != points)) {
+				if (unlikely (NULL != points
+					      && max_cri_points > 0)) {
+					DROP_OLDEST_CRI_POINT ();
 					points->kind = VBI3_CRI_BIT;
 					points->index =	(raw - raw_start)
 						* 256 / bs->bytes_per_sample
@@ -473,14 +501,6 @@ do {									\
 	return TRUE;
 }
 
-/* bs->payload counts octets when the octet routines are used
-   (bs->endian 0 or 1), bits otherwise. */
-_vbi_inline unsigned int
-payload_bits			(const vbi3_bit_slicer *bs)
-{
-	return (bs->endian < 2) ? bs->payload * 8 : bs->payload;
-}
-
 static vbi_bool
 null_function			(vbi3_bit_slicer *	bs,
 				 uint8_t *		buffer,
@@ -547,6 +567,7 @@ vbi3_bit_slicer_slice_with_points
 	static const unsigned int thresh_frac = DEF_THR_FRAC;
 	static const vbi_bool collect_points = TRUE;
 	vbi3_bit_slicer_point *points_start;
+	unsigned int max_cri_points;
 
 	assert (NULL != bs);
 	assert (NULL != buffer);
@@ -570,6 +591,8 @@ vbi3_bit_slicer_slice_with_points
 			 max_points, bs->total_bits);
 		return FALSE;
 	}
+
+	max_cri_points = bs->total_bits - bs->frc_bits - payload_bits (bs);
 
 	if (low_pass_bit_slicer_Y8 == bs->func) {
 		return bs->func (bs, buffer, points, n_points, raw);
